@@ -135,6 +135,26 @@ func (r *Keyring) Add(key agent.AddedKey) error {
 	return nil
 }
 
+// AddSigner puts an identity into the keyring directly (key types the agent protocol's add request cannot carry, such as
+// security keys); cert may be nil.
+func (r *Keyring) AddSigner(signer ssh.Signer, cert *ssh.Certificate, comment string) error {
+	if cert != nil {
+		var err error
+		if signer, err = ssh.NewCertSigner(cert, signer); err != nil {
+			return err
+		}
+	}
+	id := Ident{Blob: signer.PublicKey().Marshal(), Comment: comment, signer: signer}
+	for i, k := range r.Keys {
+		if bytes.Equal(k.Blob, id.Blob) {
+			r.Keys[i] = id
+			return nil
+		}
+	}
+	r.Keys = append(r.Keys, id)
+	return nil
+}
+
 func (r *Keyring) Sign(key ssh.PublicKey, data []byte) (*ssh.Signature, error) {
 	return r.SignWithFlags(key, data, 0)
 }
